@@ -535,7 +535,11 @@ def fixed_length_slope(
         x1 = distnc[idx0] + length / 2
         while distnc[idx0] > x0:
             idx_ds = idxs_ds[idx0]
-            if idx_ds == idx0 or (mask is not None and mask[idx0] == False):
+            if (
+                idx_ds == idx0
+                or idx_ds == mv
+                or (mask is not None and mask[idx0] == False)
+            ):
                 break
             idx0 = idx_ds
         # move upstream and collect x & z
